@@ -13,7 +13,7 @@ VARIABLE l
 TraceRecs == ndJsonDeserialize("trace.ndjson")
 Decls == ndJsonDeserialize("decls.ndjson")
 
-Props == {"C01", "C02", "C03", "C04", "C06", "C07", "C08", "C09", "C10", "DRIFT"}
+Props == {"C01", "C02", "C03", "C04", "C06", "C07", "C08", "C09", "C10", "C11", "DRIFT"}
 
 \* a scenario may start with a first ParseArgs on the same parser (prelude); the judged call is the second one
 Final(rec, argv) ==
@@ -82,6 +82,14 @@ J09(f, o) == Dom(f, o) =>
 \* --- C10: positional binding
 J10(f, o) == (Dom(f, o) /\ SpecOk(f)) => (o.ok /\ PosEq(f, o) /\ o.retargs = f.retargs)
 
+\* --- C11: values are converted exactly or rejected with the documented error naming the option (and listing the choices)
+ConvErrs == {"ErrMarshal", "ErrInvalidChoice"}
+J11(f, o) == Dom(f, o) =>
+                (/\ \A t \in ConvErrs : (f.err.t = t) <=> (o.errType = t)
+                 /\ f.err.t \in ConvErrs => o.errOpt = f.err.opt
+                 /\ f.err.t = "ErrInvalidChoice" => o.errList = f.err.names
+                 /\ SpecOk(f) => (o.ok /\ ValuesEq(f, o) /\ PosEq(f, o) /\ Calls(o.events) = Calls(f.events)))
+
 \* --- C02: the two spellings give the same outcome (and each equals the specification's)
 \* admissible for the value as written in either vector (the exhaustive pair model writes it raw in one, quoted in the other)
 Adm2(f, rec) == /\ Admissible(f, rec.altInfo, rec.popts)
@@ -120,7 +128,7 @@ InDom02(rec, f, o) ==
 
 JudgeWith(rec, f, o) ==
      [C01 |-> J01(f, o), C02 |-> J02(rec, f, o), C03 |-> J03(f, o), C04 |-> J04(f, o, rec), C06 |-> J06(f, o), C07 |-> J07(f, o),
-      C08 |-> J08(f, o), C09 |-> J09(f, o), C10 |-> J10(f, o), DRIFT |-> FullEq(f, o),
+      C08 |-> J08(f, o), C09 |-> J09(f, o), C10 |-> J10(f, o), C11 |-> J11(f, o), DRIFT |-> FullEq(f, o),
       \* how often each property's antecedent was met (non-vacuity figures for the evidence)
       grey |-> B(f.grey), ok |-> B(SpecOk(f)), steps |-> f.steps,
       d01 |-> B(Dom(f, o) /\ SpecOk(f) /\ f.occ # <<>>),
@@ -131,10 +139,11 @@ JudgeWith(rec, f, o) ==
       d07 |-> B(Dom(f, o) /\ (f.err.t = "ErrUnknownFlag" \/ Unks(f.events) # <<>>)),
       d08 |-> B(Dom(f, o) /\ Len(f.chain) > 1),
       d09 |-> B(Dom(f, o) /\ Execs(f.events) # <<>>),
-      d10 |-> B(Dom(f, o) /\ SpecOk(f) /\ InSeq(f.role, "positional"))]
+      d10 |-> B(Dom(f, o) /\ SpecOk(f) /\ InSeq(f.role, "positional")),
+      d11 |-> B(Dom(f, o) /\ (f.err.t \in ConvErrs \/ (SpecOk(f) /\ f.occ # <<>>)))]
 Judge(rec) == JudgeWith(rec, TLCEval(Final(rec, rec.argv)), rec.obs)
 
-StatKeys == {"grey", "ok", "steps", "d01", "d02", "d03", "d04", "d06", "d07", "d08", "d09", "d10"}
+StatKeys == {"grey", "ok", "steps", "d01", "d02", "d03", "d04", "d06", "d07", "d08", "d09", "d10", "d11"}
 \* One state per record.  The judging is done in an invariant, not in the action: TLC caches lazily evaluated
 \* operator arguments and LET definitions only when it evaluates a state predicate; inside a next-state action every
 \* use re-evaluates them, which turns the nested operators of the specification exponential on large records.
